@@ -767,6 +767,12 @@ theorem C10_total (t : Forest) (h : Reachable t) : writer t = .accept ∨ writer
 (`Gen/Directives.lean`, regenerated from the working tree on every run). -/
 theorem C10_table_agrees : Gen.tableOk writer = true := by decide +kernel
 
+/-- The same for MODULES: `writerC` (every routine validated with its own routine-level facts, first
+exception wins) agrees with the real sweep over whole Containers on the module catalogue (all ordered
+pairs of 16 routine shapes — with / without `acc routine`, `declare target`, compute regions, OpenMP,
+orphaned loop directives — and all triples of 6 of them), regenerated on every run. -/
+theorem C10_ctable_agrees : Gen.ctableOk writerC = true := by decide +kernel
+
 /-- The full statement of the property on the model. -/
 def C10_statement : Prop := ∀ t, writerAccepts t = true → specValid t
 
@@ -787,6 +793,188 @@ and satisfiable, see the examples) accepted trees satisfy the whole specificatio
 theorem C10_writer_guards_partial (t : Forest) (h : writerAccepts t = true)
     (hnw : nowaitOk t = true) : specValid t :=
   ⟨C10_writer_guards t h, hnw⟩
+
+/-! ## The property for modules with several routines
+
+`Container` = list of routines, each validated with its own routine-level facts; histories apply
+each transformation to one routine (`COp`). -/
+
+theorem writerC_accept_iff (c : Container) :
+    writerC c = .accept ↔ ∀ r, r ∈ c → writer r = .accept := by
+  induction c with
+  | nil => simp [writerC]
+  | cons r rs ih =>
+    simp only [writerC, List.mem_cons, forall_eq_or_imp]
+    constructor
+    · intro h
+      obtain ⟨h1, h2⟩ := andThen_accept h
+      exact ⟨h1, ih.mp h2⟩
+    · intro ⟨h1, h2⟩
+      rw [h1, ih.mpr h2]; rfl
+
+/-- **Main theorem, multi-routine form**: if the writer accepts a module, every routine satisfies the
+nesting / association / rectangularity / no-mixing rules, each with respect to ITS OWN routine-level
+facts (`envOf r`): an orphaned `acc loop` needs the `acc routine` directive of the routine it is in,
+`acc routine` constrains the routine it is in. -/
+theorem C10_container_guards (c : Container) (h : writerAcceptsC c = true) : guardedValidC c := by
+  intro r hr
+  have h' : writerC c = .accept := by simpa [writerAcceptsC] using h
+  exact C10_writer_guards r (by simp [writerAccepts, (writerC_accept_iff c).mp h' r hr])
+
+theorem C10_container_guards_partial (c : Container) (h : writerAcceptsC c = true)
+    (hnw : nowaitOkC c = true) : specValidC c := by
+  intro r hr
+  refine ⟨C10_container_guards c h r hr, ?_⟩
+  simp only [nowaitOkC, List.all_eq_true] at hnw
+  exact hnw r hr
+
+/-- the Boolean container verdicts the driver prints are the per-routine rules -/
+theorem guardedValidC_iff (c : Container) :
+    guardedValidC c ↔ (coreOkC c = true ∧ rectOkC c = true ∧ mixOkC c = true) := by
+  simp only [guardedValidC, guardedValid, coreOkC, rectOkC, mixOkC, List.all_eq_true]
+  constructor
+  · intro h; exact ⟨fun r hr => (h r hr).1, fun r hr => (h r hr).2.1, fun r hr => (h r hr).2.2⟩
+  · intro ⟨h1, h2, h3⟩ r hr; exact ⟨h1 r hr, h2 r hr, h3 r hr⟩
+
+/-- a step changes exactly one routine, by an accepted single-routine transformation -/
+theorem modifyNth_mem {g : Forest → Option Forest} : ∀ (i : Nat) (c c' : Container),
+    modifyNth i g c = some c' → ∀ r', r' ∈ c' → r' ∈ c ∨ ∃ r, r ∈ c ∧ g r = some r' := by
+  intro i c
+  induction c generalizing i with
+  | nil => intro c' h; simp [modifyNth] at h
+  | cons r rs ih =>
+    intro c' h r' hr'
+    cases i with
+    | zero =>
+      simp only [modifyNth, Option.map_eq_some_iff] at h
+      obtain ⟨r2, hg, rfl⟩ := h
+      simp only [List.mem_cons] at hr'
+      rcases hr' with rfl | hr'
+      · exact Or.inr ⟨r, by simp, hg⟩
+      · exact Or.inl (by simp [hr'])
+    | succ i =>
+      simp only [modifyNth, Option.map_eq_some_iff] at h
+      obtain ⟨rs', hm, rfl⟩ := h
+      simp only [List.mem_cons] at hr'
+      rcases hr' with rfl | hr'
+      · exact Or.inl (by simp)
+      · rcases ih i rs' hm r' hr' with h1 | ⟨r2, h2, h3⟩
+        · exact Or.inl (by simp [h1])
+        · exact Or.inr ⟨r2, by simp [h2], h3⟩
+
+/-- every routine of a reachable module is reachable by a single-routine history -/
+theorem reachableC_each {c : Container} (h : ReachableC c) : ∀ r, r ∈ c → Reachable r := by
+  induction h with
+  | start c hd =>
+    intro r hr
+    exact .start r (List.all_eq_true.mp hd r hr)
+  | step c c' o _ hap ih =>
+    intro r' hr'
+    rcases modifyNth_mem o.ri c c' hap r' hr' with h1 | ⟨r, h2, h3⟩
+    · exact ih r' h1
+    · exact .step r r' o.op (ih r h2) h3
+
+theorem writerC_ne_crash (c : Container) (h : ∀ r, r ∈ c → writer r ≠ .crash) :
+    writerC c ≠ .crash := by
+  induction c with
+  | nil => simp [writerC]
+  | cons r rs ih =>
+    simp only [writerC]
+    exact andThen_ne_crash (h r (by simp)) (ih (fun r' hr' => h r' (by simp [hr'])))
+
+/-- **Totality, multi-routine form**: for every module reachable from a directive-free module by any
+interleaving of accepted transformations on any of its routines, the writer accepts or raises
+`GenerationError`. -/
+theorem C10_container_total (c : Container) (h : ReachableC c) :
+    writerC c = .accept ∨ writerC c = .genError := by
+  have := writerC_ne_crash c (fun r hr => by
+    have := C10_total r (reachableC_each h r hr)
+    rcases this with h1 | h1 <;> simp [h1])
+  cases hw : writerC c <;> simp_all
+
+/-- **Frame**: a transformation on routine `i` leaves every other routine of the module untouched … -/
+theorem C10_step_frame (g : Forest → Option Forest) : ∀ (i : Nat) (c c' : Container),
+    modifyNth i g c = some c' → c'.length = c.length ∧ ∀ j, j ≠ i → c'[j]? = c[j]? := by
+  intro i c
+  induction c generalizing i with
+  | nil => intro c' h; simp [modifyNth] at h
+  | cons r rs ih =>
+    intro c' h
+    cases i with
+    | zero =>
+      simp only [modifyNth, Option.map_eq_some_iff] at h
+      obtain ⟨r2, _, rfl⟩ := h
+      refine ⟨by simp, ?_⟩
+      intro j hj
+      cases j with
+      | zero => exact absurd rfl hj
+      | succ j => simp
+    | succ i =>
+      simp only [modifyNth, Option.map_eq_some_iff] at h
+      obtain ⟨rs', hm, rfl⟩ := h
+      obtain ⟨hl, hf⟩ := ih i rs' hm
+      refine ⟨by simp [hl], ?_⟩
+      intro j hj
+      cases j with
+      | zero => simp
+      | succ j => simpa using hf j (by omega)
+
+/-- … hence the writer's verdict on every other routine is unchanged: validity is a per-routine
+matter, no transformation of routine `i` can make (or break) the directives of routine `j`. -/
+theorem C10_step_local (o : COp) (c c' : Container) (h : applyCOp o c = some c') (j : Nat)
+    (hj : j ≠ o.ri) : (c'[j]?).map writer = (c[j]?).map writer := by
+  rw [(C10_step_frame _ o.ri c c' h).2 j hj]
+
+/-! ### the cross-routine leak: a weakened lookup (whole tree instead of enclosing routine) -/
+
+open Kind Forest in
+/-- module with two routines: `acc routine` in the first, an orphaned `acc loop` (no parallel /
+kernels region, routine not an `acc routine`) in the second -/
+def witnessLeak : Container :=
+  [cons accRoutine nil (cons (loop 0) (cons stmt nil nil) nil),
+   cons (accLoop 0) (cons (loop 0) (cons stmt nil nil) nil) nil]
+
+open Kind Forest in
+/-- it is produced by two accepted transformations on DIFFERENT routines of a directive-free module
+(`ACCRoutineTrans` on routine 0, `ACCLoopTrans` on the loop of routine 1) -/
+theorem witnessLeak_reachable : ReachableC witnessLeak :=
+  .step [cons accRoutine nil (cons (loop 0) (cons stmt nil nil) nil), cons (loop 0) (cons stmt nil nil) nil] _
+    ⟨1, .loopDir (accLoop 0) [] 0⟩
+    (.step [cons (loop 0) (cons stmt nil nil) nil, cons (loop 0) (cons stmt nil nil) nil] _
+      ⟨0, .leaf accRoutine [] 0⟩ (.start _ (by decide)) (by decide))
+    (by decide)
+
+/-- the code's per-routine rule refuses it … -/
+theorem C10_leak_refused : writerC witnessLeak = .genError := by decide
+
+/-- … **the weakened rule accepts it although it is invalid**: `guardedValidC` cannot be proved for a
+writer whose `acc routine` lookup searches the whole tree. -/
+theorem C10_leak_counterexample :
+    writerLeakC witnessLeak = .accept ∧ ¬ guardedValidC witnessLeak := by
+  refine ⟨by decide, ?_⟩
+  intro h
+  have := (guardedValidC_iff witnessLeak).mp h
+  exact absurd this.1 (by decide)
+
+open Kind Forest in
+/-- routine with an orphaned `acc loop` -/
+def orphanAccLoop : Forest := cons (accLoop 0) (cons (loop 0) (cons stmt nil nil) nil) nil
+
+/-- The weakened rule is not local either: a step on routine 0 (inserting `acc routine`) flips the
+verdict on routine 1, which `C10_step_local` excludes for the code's rule. -/
+theorem C10_leak_not_local :
+    writerLeakC [.cons .stmt .nil .nil, orphanAccLoop] = .genError ∧
+    applyCOp ⟨0, .leaf .accRoutine [] 0⟩ [.cons .stmt .nil .nil, orphanAccLoop]
+      = some [.cons .accRoutine .nil (.cons .stmt .nil .nil), orphanAccLoop] ∧
+    writerLeakC [.cons .accRoutine .nil (.cons .stmt .nil .nil), orphanAccLoop] = .accept ∧
+    writerC [.cons .accRoutine .nil (.cons .stmt .nil .nil), orphanAccLoop] = .genError := by
+  decide
+
+/-- On a module with ONE routine the weakened rule and the code's rule coincide: no single-routine
+input family can tell them apart (why the seeded change C10-3 needed multi-routine inputs). -/
+theorem C10_leak_invisible_single (r : Forest) : writerLeakC [r] = writerC [r] := by
+  simp only [writerLeakC, writerLeakAux, writerC, writer, leakEnv, envOf, List.any_cons, List.any_nil,
+    Bool.or_false]
 
 /-! ## non-vacuity and sanity evaluations -/
 section examples
@@ -851,6 +1039,18 @@ example : applyOp (.loopDir (ompDo 2) [] 0) (cons (loop 0) (cons (loop 0) nil ni
 example : Reachable (cons ompParallel (cons (ompDo 2) nest2 nil) nil) :=
   .step (cons (ompDo 2) nest2 nil) _ (.region ompParallel [] 0 1)
     (.step nest2 _ (.loopDir (ompDo 2) [] 0) (.start nest2 (by decide)) (by decide)) (by decide)
+-- modules with several routines
+example : writerAcceptsC [cons accRoutine nil (cons (accLoop 0) nest2 nil), cons accParallel (cons (accLoop 2) nest2 nil) nil]
+    = true := by decide
+example : nowaitOkC [cons accRoutine nil (cons (accLoop 0) nest2 nil), cons accParallel (cons (accLoop 2) nest2 nil) nil]
+    = true := by decide
+example : writerC [cons accRoutine nil nest2, cons (accLoop 0) nest2 nil] = .genError := by decide
+example : writerC [cons accParallel nest2 nil, cons accRoutine nil nest2] = .accept := by decide
+example : writerC [cons accParallel nest2 nil, cons accRoutine nil (cons accParallel nest2 nil)] = .genError := by decide
+example : applyCOp ⟨1, .loopDir (accLoop 0) [] 0⟩ [nest2, nest2] = some [nest2, cons (accLoop 0) nest2 nil] := by decide
+example : applyCOp ⟨2, .loopDir (accLoop 0) [] 0⟩ [nest2, nest2] = none := by decide
+example : hasAccRoutine (cons accRoutine nil nest2) = true ∧ hasAccRoutine nest2 = false := by decide
+example : hasDeclareTarget (cons ompDeclareTarget nil nest2) = true := by decide
 end examples
 
 end C10
